@@ -627,7 +627,38 @@ class SymReal:
             for _ in range(int(o)):
                 r = r * self.e
             return SymReal(r, self.nan)
+        if isinstance(o, SymReal):
+            from .ufmath import env
+            return env().pow(self, o)
         return NotImplemented
+
+    def __rpow__(self, o):
+        l = _lift(o)
+        if l is None:
+            return NotImplemented
+        from .ufmath import env
+        return env().pow(SymReal(l[0], l[1]), self)
+
+    # transcendental functions: numpy's object loops call these methods;
+    # they are only available inside a harness that attached an
+    # axiomatised environment (vf/ufmath.py), otherwise out of model
+    def exp(self):
+        from .ufmath import env
+        return env().exp(self)
+
+    def cos(self):
+        from .ufmath import env
+        return env().cos(self)
+
+    def sin(self):
+        from .ufmath import env
+        return env().sin(self)
+
+    def deg2rad(self):
+        return self * (math.pi / 180.0)
+
+    def copy(self):
+        return self
 
     # -- comparisons (IEEE: ordered comparisons with NaN are false)
     def _cmp(self, o, f, ne=False):
